@@ -43,8 +43,9 @@ TRUSTED = {
            '"the result is a function of the argument values" (r == f(args), f uninterpreted). The callees are safe Rust over their arguments with no I/O, randomness or state that '
            'outlives the call (LineNumbers\' RefCell is local to one call), and for find_words (U13, U20), split_points/split_words (U16, U14), break_apart (U15) and wrap_first_fit (U1) '
            'the contracts proved in their own units determine the result uniquely; for optimal-fit it rests on smawk being deterministic, for the Custom variants on their authors (A15). '
-           'Also: str::split is modelled by the uninterpreted split_spec with two std facts as axioms (a text without the separator is one piece; for the separators "\\n" and "\\r\\n" '
-           'the pieces of a ++ sep ++ b are those of a followed by those of b), both checked on the real str::split by the bounded contract A4.std_models',
+           'Also: str::split is modelled by split_spec, the scan for leftmost non-overlapping occurrences of the separator (that std::str::split computes this is the assumption; '
+           'it is checked on the real str::split by the bounded contract A4.std_models); that a text without the separator is one piece and that, for the unbordered separators '
+           '"\\n" and "\\r\\n", the pieces of a ++ sep ++ b are those of a followed by those of b are PROVED for that model (split_no_sep, split_concat)',
     'R17': 'R17 RefCell<Vec<usize>> is verified as a plain Vec behind &mut self (LineNumbers): every borrow()/borrow_mut() is a temporary that dies within its own '
            'statement and none overlaps another or the recursive call, so the dynamic borrow checks cannot fail',
     'R15': 'R15 generic parameters are verified at one instance: Opt = Options<\'a> (Into is the identity there), I = Vec<Word<\'a>>',
@@ -157,7 +158,7 @@ PROPS = {
                        'contract of wrap, C01). fill == wrap\'s lines joined by the configured line ending for every text, shortcut included (U12). LF <-> CRLF: for newline-free '
                        'paragraphs ps, wrap(join(ps, "\\n"), LF options) and wrap(join(ps, "\\r\\n"), CRLF options) are the same lines (c09_line_ending_equivariance), so fill\'s '
                        'two results differ only by the substitution. The by-reference conversion of Options copies every option unchanged and each setter changes exactly its field (U22). '
-                       'Relative to A17 (each word stage is a function of its arguments; two std facts about str::split over a concatenation).',
+                       'Relative to A17 (each word stage is a function of its arguments; str::split as the left-to-right scan for its separator).',
         'bounded_part': 'BEC: every sentence again by execution on the real crate: wrap(a+E+b) begins with wrap(a), the rest is independent of a and equals wrap(b) for empty indents; '
                         'LF<->CRLF equivariance; fill == join, fast path included; and the std facts about str::split the theorems rest on (A4.std_models).',
         'explanation': 'Proof: every sentence of the statement is a discharged Verus obligation — postconditions of wrap / fill, and theorems over wrap\'s functional postcondition '
